@@ -422,6 +422,37 @@ func c08Plan(c *Ctx, planNo int, T time.Duration) {
 		<-startGate
 		c08ListenCycle(c, planNo)
 	}()
+	// ... and the application's housekeeping goroutine works on the controller lists it asks the clients for (its own copies): drops
+	// the entries it has dealt with, adds notes of its own - while the calls are running
+	sideStop := make(chan struct{})
+	var housekeeping sync.WaitGroup
+	housekeeping.Add(1)
+	go func() {
+		defer housekeeping.Done()
+		<-startGate
+		for n := 0; ; n++ {
+			select {
+			case <-sideStop:
+				return
+			default:
+			}
+			for _, cl := range clients {
+				list := cl.DeviceList()
+				for id, dev := range list {
+					if n%2 == 0 {
+						delete(list, id)
+					} else {
+						dev.Name = "seen"
+						dev.Protocol = "tcp"
+						list[id] = dev
+					}
+				}
+				list[0x0badf00d] = uhppote.Device{Name: "note", DeviceID: 0x0badf00d}
+			}
+			time.Sleep(200 * time.Microsecond)
+		}
+	}()
+	defer func() { close(sideStop); housekeeping.Wait() }()
 	close(startGate)
 	finished := make(chan struct{})
 	go func() { wg.Wait(); side.Wait(); close(finished) }()
